@@ -64,6 +64,8 @@ def s1_basic():
         yield 'basic/enum_shapes/' + tag, en('E', [variant('A', 'Unit', [], dflt), variant('B', 'Unnamed', []), variant('C', 'Named', []),
                                                    variant('D', 'Unnamed', unnamed(2, [['T'], ['T']])), variant('F', 'Named', named(1, [PH]))], [dw(ts)])
         yield 'basic/enum_units/' + tag, en('E', [variant('A', 'Unit', [], dflt), variant('B'), variant('C')], [dw(ts)])
+        if 'Default' not in ts:
+            yield 'basic/enum_units_d/' + tag, en('E', [variant('A', 'Unit', [], [sub('default')]), variant('B'), variant('C')], [dw(ts + ['Default'])])
         yield 'basic/enum2data/' + tag, en('E', [variant('A', 'Unnamed', unnamed(1, [['T']]), dflt), variant('B', 'Unnamed', unnamed(2, [['T'], ['u8']]))], [dw(ts)])
     for ts in (['Clone'], ['Copy'], ['Clone', 'Copy']):
         tag = '+'.join(ts)
@@ -248,7 +250,11 @@ def s1_discriminant():
                 rtag = 'none' if rs is None else '_'.join(rs)
                 attrs = ([repr_attr(*rs)] if rs else []) + [dw(ts)]
                 tag = '%s/%s/%s' % (rtag, ptag, '+'.join(ts))
-                yield 'disc/unit/' + tag, en('E', [variant('A', disc=pat[0]), variant('B', disc=pat[1]), variant('C', disc=pat[2]), variant('D', disc=pat[3])], attrs)
+                # unit-only enums are accepted only with a `default` (or incomparable) variant
+                uattrs = ([repr_attr(*rs)] if rs else []) + [dw(ts + ['Default'])]
+                yield 'disc/unit/' + tag, en('E', [variant('A', disc=pat[0]), variant('B', 'Unit', [], [sub('default')], disc=pat[1]), variant('C', disc=pat[2]), variant('D', disc=pat[3])], uattrs)
+                if si in (0, 5):
+                    yield 'disc/unit_inc/' + tag, en('E', [variant('A', disc=pat[0]), variant('B', disc=pat[1]), variant('C', 'Unit', [], [sub('incomparable')], disc=pat[2]), variant('D', disc=pat[3])], attrs)
                 # data enums may carry explicit discriminants only with an integer repr
                 has_int = rs is not None and any(r in REPRS for r in rs)
                 p2 = pat if has_int else [None] * 4
@@ -257,15 +263,18 @@ def s1_discriminant():
                                                        variant('C', 'Named', named(1, [['T']]), disc=p2[2]), variant('D', 'Unnamed', [], disc=p2[3])], attrs)
                     yield 'disc/data_noempty/' + tag, en('E', [variant('A', 'Unnamed', unnamed(1, [['T']]), disc=p2[0]), variant('B', 'Named', named(2, [['T'], ['u8']]), disc=p2[1])], attrs)
                 if ptag in ('implicit', 'first'):
-                    yield 'disc/fieldless/' + tag, en('E', [variant('A', 'Unnamed', [], disc=pat[0] if False else None), variant('B', 'Named', []), variant('C')], attrs)
+                    yield 'disc/fieldless/' + tag, en('E', [variant('A', 'Unnamed', []), variant('B', 'Named', [], [sub('default')]), variant('C')], uattrs)
     # several repr attributes, extremes
-    yield 'disc/two_repr_attrs', en('E', [variant('A'), variant('B')], [repr_attr('C'), repr_attr('u16'), dw(['PartialOrd'])])
-    yield 'disc/two_int_reprs', en('E', [variant('A'), variant('B')], [repr_attr('u8'), repr_attr('i32'), dw(['PartialOrd'])])
-    yield 'disc/u8_extreme', en('E', [variant('A', disc=(['0'], 0)), variant('B', disc=(['255'], 255))], [repr_attr('u8'), dw(['PartialOrd', 'PartialEq'])])
-    yield 'disc/i8_extreme', en('E', [variant('A', disc=(['-', '128'], -128)), variant('B', disc=(['127'], 127))], [repr_attr('i8'), dw(['PartialOrd'])])
-    yield 'disc/u128_extreme', en('E', [variant('A', disc=(['340282366920938463463374607431768211455'], 2**128 - 1)), variant('B', disc=(['0'], 0))], [repr_attr('u128'), dw(['Ord', 'PartialOrd', 'Eq', 'PartialEq'])])
-    yield 'disc/i128_extreme', en('E', [variant('A', disc=(['-', '170141183460469231731687303715884105728'], -2**127)), variant('B')], [repr_attr('i128'), dw(['PartialOrd'])])
-    yield 'disc/raw_names', en('E', [variant('r#type', disc=(['2'], 2)), variant('r#fn'), variant('C')], [dw(['PartialOrd'])])
+    D = [sub('default')]
+    yield 'disc/two_repr_attrs', en('E', [variant('A', 'Unit', [], D), variant('B')], [repr_attr('C'), repr_attr('u16'), dw(['PartialOrd', 'Default'])])
+    yield 'disc/two_int_reprs', en('E', [variant('A', 'Unit', [], D), variant('B')], [repr_attr('u8'), repr_attr('i32'), dw(['PartialOrd', 'Default'])])
+    yield 'disc/u8_extreme', en('E', [variant('A', 'Unit', [], D, disc=(['0'], 0)), variant('B', disc=(['255'], 255))], [repr_attr('u8'), dw(['PartialOrd', 'PartialEq', 'Default'])])
+    yield 'disc/i8_extreme', en('E', [variant('A', 'Unit', [], D, disc=(['-', '128'], -128)), variant('B', disc=(['127'], 127))], [repr_attr('i8'), dw(['PartialOrd', 'Default'])])
+    yield 'disc/u128_extreme', en('E', [variant('A', 'Unit', [], D, disc=(['340282366920938463463374607431768211455'], 2**128 - 1)), variant('B', disc=(['0'], 0))], [repr_attr('u128'), dw(['Ord', 'PartialOrd', 'Eq', 'PartialEq', 'Default'])])
+    yield 'disc/i128_extreme', en('E', [variant('A', 'Unit', [], D, disc=(['-', '170141183460469231731687303715884105728'], -2**127)), variant('B')], [repr_attr('i128'), dw(['PartialOrd', 'Default'])])
+    yield 'disc/u8_extreme_data', en('E', [variant('A', 'Unnamed', unnamed(1, [['T']]), disc=(['254'], 254)), variant('B')], [repr_attr('u8'), dw(['PartialOrd', 'PartialEq'])])
+    yield 'disc/raw_names', en('E', [variant('r#type', 'Unit', [], D, disc=(['2'], 2)), variant('r#fn'), variant('C')], [dw(['PartialOrd', 'Default'])])
+    yield 'disc/raw_names_repr', en('E', [variant('r#type', 'Unit', [], D, disc=(['2'], 2)), variant('r#fn'), variant('C')], [repr_attr('i8'), dw(['Ord', 'PartialOrd', 'Eq', 'PartialEq', 'Default'])])
     yield 'disc/generic_where', en('E', [variant('A', 'Unnamed', unnamed(1, [['T']])), variant('B', 'Unnamed', unnamed(1, [['U']]))], [dw(['PartialOrd'], ['T'])],
                                     gen=generics([('Lt', 'a', []), tparam('T', ['Clone']), tparam('U', [], ['u8']), ('Const', 'N', ['usize'], [])], ([['U', ':', "'a"]], True)))
     yield 'disc/skip_empty', en('E', [variant('A', 'Unnamed', unnamed(1, [['T']], [[sub('skip')]])), variant('B', 'Unnamed', unnamed(1, [['T']])), variant('C', 'Unnamed', unnamed(1, [['T']]))], [dw(['PartialOrd', 'Ord', 'PartialEq', 'Eq'])])
